@@ -117,7 +117,9 @@ pub fn name(input: &str) -> nom::IResult<&str, String> {
     map_res(
         take_while1(|u: char| is_alphanumeric(u as _) || u == '.' || u == '_'),
         |s: &str| {
-            if s.starts_with("__") {
+            if s.bytes().all(|b| b.is_ascii_digit()) {
+                Err(Error::from(format!("Integer literal too large: {:?}", s)))
+            } else if s.starts_with("__") {
                 Err(Error::from(format!(
                     "Names beginning with \"__\" are reserved for internal use: {:?}",
                     s
